@@ -74,8 +74,17 @@ def _env(seed, tier):
     return e
 
 
-def run_suites(prefixes, repo, tier='quick', seed=0, timeout_s=900):
-    """runs every #[test] whose name starts with one of `prefixes` inside the verif_native modules"""
+def run_suites(prefixes, repo, tier='quick', seed=0, timeout_s=None):
+    """runs every #[test] whose name starts with one of `prefixes` inside the verif_native modules
+    (one retry if the run hits its time limit: a hang must not turn into a verdict)"""
+    timeout_s = timeout_s or (300 if tier == 'quick' else 1500)
+    r = _run_suites(prefixes, repo, tier, seed, timeout_s)
+    if r.get('timed_out'):
+        r = _run_suites(prefixes, repo, tier, seed, timeout_s * 2)
+    return r
+
+
+def _run_suites(prefixes, repo, tier, seed, timeout_s):
     t0 = time.time()
     missing = assemble(repo)
     res = {'status': 'undecided', 'suites': [], 'fails': [], 'reason': None, 'wall_s': 0, 'cmd': None}
@@ -94,6 +103,7 @@ def run_suites(prefixes, repo, tier='quick', seed=0, timeout_s=900):
     except subprocess.TimeoutExpired as e:
         out = ((e.stdout or b'').decode('utf-8', 'replace') if isinstance(e.stdout, bytes) else (e.stdout or '')) + '\nNLIB: timeout'
         rc = -9
+        res['timed_out'] = True
     with open(os.path.join(VERIF, 'build', 'native-last.log'), 'w') as f:
         f.write(out)
     res['wall_s'] = round(time.time() - t0, 1)
@@ -120,6 +130,10 @@ def run_suites(prefixes, repo, tier='quick', seed=0, timeout_s=900):
         res['reason'] = 'no native suite matched %s' % ','.join(prefixes)
         return res
     res['status'] = 'failed' if (res['fails'] or res['aborted']) else 'ok'
+    if res.get('timed_out'):
+        # suites that did not finish are unknown, never a verdict
+        res['status'] = 'failed' if res['fails'] else 'undecided'
+        res['reason'] = 'native run hit its time limit (%ds); %d suite(s) finished' % (timeout_s, len(res['suites']))
     return res
 
 
